@@ -876,7 +876,13 @@ pub fn run(seed: u64, count: u64, corpus: Option<&str>, em: &mut Emitter) {
             }
         }
     }
-    let mut rng = Rng::new(seed);
+    // `Rng::new(s + d)` is `Rng::new(s)` advanced by d draws: scramble the seed so that nearby
+    // seeds give unrelated streams
+    let mut rng = {
+        let mut r = Rng::new(seed);
+        let (a, b) = (r.next(), r.next());
+        Rng(a ^ b.rotate_left(17) ^ seed.wrapping_mul(0xD6E8_FEB8_6659_FD93))
+    };
     for i in 0..count {
         match i % 9 {
             8 => gen_unescape(&mut rng, em),
